@@ -1,7 +1,7 @@
 SPECIFICATION OneSpec
 CONSTANTS
-  MAXP = 3
+  MAXP = 2
   MAXFAULT = 2
-  NLISTS = 6
-  STRIDE = 400
+  NLISTS = 5
+  STRIDE = 30
 CHECK_DEADLOCK FALSE
